@@ -19,8 +19,14 @@ func VerifC25_range() {
 // partition leader racks from {none, a, b}.
 func VerifC25_rangeRacks() {
 	var in *verifBalIn
+	wide := false
 	if verifThorough() {
-		in = verifBalShape(2, 3, []int{3, 2}, false, false, false)
+		if verifBalPick(2) == 0 {
+			in = verifBalShape(2, 2, []int{2, 2}, false, false, true)
+			wide = true
+		} else {
+			in = verifBalShape(3, 3, []int{2, 1}, false, false, true)
+		}
 	} else {
 		in = verifBalShape(2, 2, []int{2, 1}, false, false, true)
 	}
@@ -46,7 +52,7 @@ func VerifC25_rangeRacks() {
 	}
 	t := in.order[0]
 	shapes := 1
-	if verifThorough() {
+	if wide {
 		shapes = 4
 	}
 	switch verifBalPick(shapes) {
@@ -83,7 +89,7 @@ func VerifC25_roundRobin() {
 func VerifC25_sticky() {
 	var in *verifBalIn
 	if verifThorough() {
-		in = verifBalShape(1, 2, []int{2, 2}, true, false, false)
+		in = verifBalShape(1, 2, []int{2, 1}, false, false, false)
 		in.verifBalClaims()
 	} else {
 		in = verifBalShape(2, 2, []int{2, 1}, false, false, true)
@@ -98,7 +104,7 @@ func VerifC25_sticky() {
 func VerifC25_cooperativeSticky() {
 	var in *verifBalIn
 	if verifThorough() {
-		in = verifBalShape(1, 2, []int{2, 2}, true, false, false)
+		in = verifBalShape(1, 2, []int{2, 2}, false, false, false)
 		in.verifBalClaims()
 	} else {
 		in = verifBalShapeN(2, 2, []int{1, 0}, []int{2, 1}, false, false, true)
@@ -112,7 +118,7 @@ func VerifC25_cooperativeSticky() {
 func VerifC25_cooperativeSticky3() {
 	var in *verifBalIn
 	if verifThorough() {
-		in = verifBalShape(3, 3, []int{2, 1}, false, false, true)
+		in = verifBalShape(3, 3, []int{1, 1}, false, false, true)
 		in.verifBalOwnerClaims(true)
 	} else {
 		in = verifBalShape(3, 3, []int{1, 1}, false, false, true)
